@@ -15,6 +15,7 @@ import numpy as np  # noqa: E402
 
 import common
 import mps_gen as G
+import c07_valued
 from common import coq_lit, Nat, CoqRaw
 
 TOL = 2e-9
@@ -646,7 +647,7 @@ def product_stream(ctx, script, rng, ncases):
 def main(ctx):
     rng = ctx.rng
     script = 'c07_impl.py'
-    ctx.proof = common.check_proofs('C07')
+    ctx.proof = common.check_proofs('C07', extra_targets=['Model/MpsDenoteCheck.vo'])
     mult = 1 if ctx.proof.ok else 3
     SI = get_siteinfo(script)
     for p in G.check_site_tables(SI):
@@ -654,6 +655,7 @@ def main(ctx):
     ncorr = index_stream(ctx, script) or 0
     import random as _random
     ncorr += product_stream(ctx, script, _random.Random(ctx.seed * 7919 + 707), ctx.pick(60, 400)) or 0
+    ncorr += c07_valued.valued_stream(ctx, script, _random.Random(ctx.seed * 7919 + 717), ctx.pick(80, 300) * mult) or 0
     # ---------------- cases
     nfin = ctx.pick(150, 1500) * mult
     ninf = ctx.pick(60, 600) * mult
@@ -795,12 +797,13 @@ def main(ctx):
     ctx.cov['traces_validated_against_impl'] = ncorr + len(form_lits) + len(theta_lits)
     ctx.cov['input_distribution'] = hist
     ctx.assumptions += [
-        'C07 model: exponents in units of 1/2; numerical content of Gamma/s, charges, QR/SVD not modelled (oracle only); set_svd_theta and canonical_form enter the model by their specification (isometric factors)',
+        'C07 model: exponents in units of 1/2; numerical content of Gamma/s is modelled only for the form conversions (Model/MpsDenote.v, stream valued: dyadic tensors, singular values 4^k, trivial charges); charges, QR/SVD not modelled (oracle only); set_svd_theta and canonical_form enter the model by their specification (isometric factors)',
         'C07 oracle: dense references in the stored local basis, site tables of harness/mps_gen.py cross-checked against the site classes; infinite states compared through reduced density matrices on a three-cell window '
         '(transfer-matrix contraction of the input tensors); from_product_mps_covering with fermionic sites only for non-interleaved local states (the documentation does not define the sign convention)',
     ]
     return ctx.finish(RULE, 'theorems of coq/Props/C07.v (index arithmetic, label-truthfulness invariant over all histories, get_theta exponents) on the model; '
-                      'every executed operation is replayed on the model (labels, physical and bond dimensions); dense oracle for every constructor and history')
+                      'every executed operation is replayed on the model (labels, physical and bond dimensions); the valued form model (Model/MpsDenote.v) is executed '
+                      'against get_B/set_B/convert_form/get_theta on dyadic MPS with exact comparison of all tensor entries (stream valued); dense oracle for every constructor and history')
 
 
 RULE = ('finite chains L 2-8 (spin-1/2, spin-1, fermion, spinful fermion, boson sites; conserve None/Sz/N/parity; heterogeneous), constructors '
